@@ -373,3 +373,25 @@ func (r *Recorder) Enumerated(n int64) {
 	r.enumerated += n
 	r.mu.Unlock()
 }
+
+var raceSeen int64
+
+// RaceCheck returns the text the race detector has logged since the previous call ("" when
+// nothing new, or when the process does not log race reports to a file: VERIF_RACE_LOG). The Go
+// runtime appends ".<pid>" to the log path.
+func RaceCheck() string {
+	base := os.Getenv("VERIF_RACE_LOG")
+	if base == "" {
+		return ""
+	}
+	b, err := os.ReadFile(fmt.Sprintf("%s.%d", base, os.Getpid()))
+	if err != nil || int64(len(b)) <= raceSeen {
+		return ""
+	}
+	text := string(b[raceSeen:])
+	raceSeen = int64(len(b))
+	if len(text) > 6000 {
+		text = text[:6000] + "..."
+	}
+	return text
+}
